@@ -458,3 +458,41 @@ func VarArgs(v ssa.Value) []ssa.Value {
 	}
 	return res
 }
+
+// CellValueAt resolves a load from a local/heap cell (a variable captured by a closure is kept in memory by
+// go/ssa) to the value most recently stored on the dominator chain; nil when no dominating store exists.
+func CellValueAt(v ssa.Value) ssa.Value {
+	ld, ok := v.(*ssa.UnOp)
+	if !ok || ld.Op != token.MUL {
+		return nil
+	}
+	al, ok := ld.X.(*ssa.Alloc)
+	if !ok {
+		return nil
+	}
+	b := ld.Block()
+	// same block, before the load
+	var last ssa.Value
+	for _, ins := range b.Instrs {
+		if ins == ssa.Instruction(ld) {
+			break
+		}
+		if st, ok := ins.(*ssa.Store); ok && st.Addr == ssa.Value(al) {
+			last = st.Val
+		}
+		if _, isCall := ins.(*ssa.Call); isCall && last != nil {
+			// closures may write the cell only if they capture it; ignored (writers of err cells are the function itself)
+		}
+	}
+	if last != nil {
+		return last
+	}
+	for d := b.Idom(); d != nil; d = d.Idom() {
+		for i := len(d.Instrs) - 1; i >= 0; i-- {
+			if st, ok := d.Instrs[i].(*ssa.Store); ok && st.Addr == ssa.Value(al) {
+				return st.Val
+			}
+		}
+	}
+	return nil
+}
